@@ -196,6 +196,25 @@ def judge_tables(job):
             n += 1
             check_value(s, "boolean", text, r["ok"], r["val"] if r["ok"] else None, out, ver,
                         "xs:boolean", compare=lambda a, b: a is b)
+    elif table == "times":
+        s, err = typed_schema(ver, '<xs:element name="v" type="xs:time"/>', "time")
+        for r in rows:
+            n += 1
+            check_value(s, "time", f'{r["h"]}:{r["mi"]}:{r["s"]}{r["z"]}', r["ok"], None, out, ver, "xs:time")
+    elif table == "durations":
+        s, err = typed_schema(ver, '<xs:element name="v" type="xs:duration"/>', "duration")
+        for r in rows:
+            text = (r["sign"] + ("P" if r["p"] else "") + "".join(a + u for a, u in r["date"])
+                    + ("T" if r["t"] else "") + "".join(a + u for a, u in r["time"]))
+            n += 1
+            check_value(s, "duration", text, r["ok"], None, out, ver, "xs:duration")
+    elif table in ("hex", "base64"):
+        typ = "hexBinary" if table == "hex" else "base64Binary"
+        chars = {"0": "0", "a": "a", "F": "F", "g": "g", "s": " ", "B": "B", "E": "E", "Q": "Q", "=": "=", "x": "!"}
+        s, err = typed_schema(ver, f'<xs:element name="v" type="xs:{typ}"/>', typ)
+        for r in rows:
+            n += 1
+            check_value(s, typ, "".join(chars[c] for c in r["w"]), r["ok"], None, out, ver, "xs:" + typ)
     else:       # dates
         s, err = typed_schema(ver, '<xs:element name="v" type="xs:date"/>', "date")
         for r in rows:
@@ -242,7 +261,8 @@ def run(ctx: Ctx):
     t = ctx.tlc("ST_Tables", cfg_text="SPECIFICATION Spec\nCHECK_DEADLOCK FALSE\n", workers=1,
                 constants={"MaxLen": 0, "Kinds": '{"decimal"}'}, tag="tables")
     tables = {x["table"]: x["rows"] for x in t.json_records()}
-    if set(tables) != {"bounds", "facets", "lists", "unions", "bools", "dates10", "dates11"}:
+    if set(tables) != {"bounds", "facets", "lists", "unions", "bools", "dates10", "dates11", "times", "durations",
+                       "hex", "base64"}:
         raise MachineryError(f"tables missing: {sorted(tables)}")
     total = 0
     bad_all = []
@@ -269,7 +289,8 @@ def run(ctx: Ctx):
         refused += ref
         bad_all += bad
     # small tables
-    jobs = [(name, tables[name], ver) for ver in ("1.0", "1.1") for name in ("lists", "unions", "bools")]
+    jobs = [(name, tables[name], ver) for ver in ("1.0", "1.1")
+            for name in ("lists", "unions", "bools", "times", "durations", "hex", "base64")]
     jobs += [("dates", tables["dates10"], "1.0"), ("dates", tables["dates11"], "1.1")]
     for bad, n in ctx.pmap(judge_tables, jobs):
         total += n
@@ -289,8 +310,9 @@ def run(ctx: Ctx):
                 "xs:long (hostile classes end a word); boundary literals of 13 integer built-ins x "
                 "lexical forms; 288 two-level facet chains x 15 candidates x 3 forms; list, union, "
                 "boolean tables; xs:date field catalogue (12 years x 6 months x 8 days x 9 zones) per "
-                "XSD version; all enumerated / tabulated by TLC from spec/SimpleTypes.tla")
-    ctx.assumptions += ["float/double rounding, arbitrary pattern facets and anyURI syntax are outside "
+                "XSD version; xs:time field catalogue, xs:duration grammar catalogue, xs:hexBinary and xs:base64Binary "
+                "class words; all enumerated / tabulated by TLC from spec/SimpleTypes.tla")
+    ctx.assumptions += ["leap seconds (ss = 60) are left out of the xs:time catalogue", "float/double rounding, arbitrary pattern facets and anyURI syntax are outside "
                         "what the TLA+ definition states (see DESIGN.md)",
                         "digits of class '7' are rendered as 7"]
 
